@@ -211,6 +211,9 @@ func (c *Ctx) opSequences(n int) {
 		steps := 1 + c.Rng.Intn(6)
 		for k := 0; k < steps; k++ {
 			name := all[c.Rng.Intn(len(all))]
+			if name == "laplacian" && (m.Topology() == modeling.LineTopology || m.Topology() == modeling.LineLoopTopology) {
+				name = "center"
+			}
 			r := c.applyOp(name, m)
 			c.Emit("c02.op."+r.name, r.args, r.answer(shapeStr))
 			if r.status != "" {
